@@ -6,6 +6,8 @@ import sys
 import warnings
 
 warnings.simplefilter("ignore")
+import logging  # noqa: E402
+logging.disable(logging.CRITICAL)
 sys.path.insert(0, os.path.dirname(os.path.abspath(__file__)))
 import common  # noqa: E402
 
